@@ -1698,3 +1698,68 @@ func mergeActionSQL(a *MergeAction) string {
 		return a.ActionType
 	}
 }
+
+// SQL returns the SQL string for an ALTER statement. ALTER TABLE is written
+// with its operation (the forms the parser produces: ADD COLUMN / CONSTRAINT,
+// DROP COLUMN / CONSTRAINT, RENAME TO, RENAME COLUMN, ALTER COLUMN); for the
+// other object kinds only the object is named.
+func (a *AlterStatement) SQL() string {
+	if a == nil {
+		return ""
+	}
+	sb := getBuilder()
+	defer putBuilder(sb)
+	switch a.Type {
+	case AlterTypeRole:
+		sb.WriteString("ALTER ROLE ")
+	case AlterTypePolicy:
+		sb.WriteString("ALTER POLICY ")
+	case AlterTypeConnector:
+		sb.WriteString("ALTER CONNECTOR ")
+	default:
+		sb.WriteString("ALTER TABLE ")
+	}
+	sb.WriteString(a.Name)
+	op, ok := a.Operation.(*AlterTableOperation)
+	if !ok || op == nil || a.Type != AlterTypeTable {
+		return sb.String()
+	}
+	name := func(id *Ident) string {
+		if id == nil {
+			return ""
+		}
+		return safeIdentifier(id.Name)
+	}
+	switch op.Type {
+	case AddColumn:
+		sb.WriteString(" ADD COLUMN ")
+		if op.ColumnDef != nil {
+			sb.WriteString(columnDefSQL(op.ColumnDef))
+		}
+	case AddConstraint:
+		sb.WriteString(" ADD CONSTRAINT ")
+		if op.Constraint != nil {
+			sb.WriteString(strings.TrimPrefix(tableConstraintSQL(op.Constraint), "CONSTRAINT "))
+		}
+	case DropColumn:
+		sb.WriteString(" DROP COLUMN " + name(op.ColumnName))
+		if op.CascadeDrops {
+			sb.WriteString(" CASCADE")
+		}
+	case DropConstraint:
+		sb.WriteString(" DROP CONSTRAINT " + name(op.ConstraintName))
+		if op.CascadeDrops {
+			sb.WriteString(" CASCADE")
+		}
+	case RenameTable:
+		sb.WriteString(" RENAME TO " + op.NewTableName.Name)
+	case RenameColumn:
+		sb.WriteString(" RENAME COLUMN " + name(op.ColumnName) + " TO " + name(op.NewColumnName))
+	case AlterColumn:
+		sb.WriteString(" ALTER COLUMN " + name(op.ColumnName))
+		if op.ColumnDef != nil {
+			sb.WriteString(" " + columnDefSQL(op.ColumnDef))
+		}
+	}
+	return sb.String()
+}
